@@ -202,7 +202,7 @@ Proof. repeat split; vm_compute; reflexivity. Qed.
 (* ---- catalogue membership ---- *)
 Definition in_catalogue (code : string) : bool := existsb (str_eqb (s code)) catalogue_keys.
 
-(* FALSE on the pinned tree as first requested (only BAD_LEXEME excepted): three more literal codes are passed
+(* FALSE on the pinned tree as first requested: three literal codes are passed
    to new_error (hence to Error.from_name, a dictionary lookup) without being keys of the catalogue.  The exact
    list of offending sites is pinned below, so a repair or a new offender both change the result. *)
 Definition static_sites_missing_from_catalogue : list site :=
@@ -210,14 +210,13 @@ Definition static_sites_missing_from_catalogue : list site :=
 
 Example static_sites_missing_from_catalogue_are :
   static_sites_missing_from_catalogue
-  = [(lexer_file, "Lexer.get_next_token", "BAD_LEXEME", "Error");
-     ("norminette/rules/check_brace.py", "CheckBrace.run", "EXPECTED_BRACE", "Error");
+  = [("norminette/rules/check_brace.py", "CheckBrace.run", "EXPECTED_BRACE", "Error");
      ("norminette/rules/check_in_header.py", "CheckInHeader.run", "FORBIDDEN_IN_HEADER", "Error");
      ("norminette/rules/check_operators_spacing.py", "CheckOperatorsSpacing.check_prefix", "", "Error")].
 Proof. vm_compute. reflexivity. Qed.
 
 Definition codes_missing_from_catalogue : list string :=
-  ["BAD_LEXEME"; "EXPECTED_BRACE"; "FORBIDDEN_IN_HEADER"; ""].
+  ["EXPECTED_BRACE"; "FORBIDDEN_IN_HEADER"; ""].
 
 Lemma every_static_code_in_catalogue_partial :
   forallb (fun x => is_dynamic (site_code x) || existsb (String.eqb (site_code x)) codes_missing_from_catalogue
@@ -236,11 +235,12 @@ Lemma every_static_code_in_catalogue_refuted :
     emitters = false.
 Proof. vm_compute. reflexivity. Qed.
 
-(* the exception is real (recorded finding C08-bad-lexeme-not-in-catalogue) *)
-Lemma BAD_LEXEME_not_in_catalogue : in_catalogue "BAD_LEXEME" = false.
+(* the former finding C08-bad-lexeme-not-in-catalogue is repaired: BAD_LEXEME is a key of the published catalogue, and the
+   lexer model builds the diagnostic with from_name (catalogue text) *)
+Lemma BAD_LEXEME_in_catalogue : in_catalogue "BAD_LEXEME" = true.
 Proof. vm_compute. reflexivity. Qed.
 
-(* ... and it is built with Error(code, text), not looked up by from_name: exactly one site, in lexer.py *)
+(* exactly one site, in lexer.py *)
 Lemma BAD_LEXEME_sites :
   List.filter (fun x => String.eqb (site_code x) "BAD_LEXEME") emitters
   = [(lexer_file, "Lexer.get_next_token", "BAD_LEXEME", "Error")].
